@@ -16,7 +16,7 @@ META = {
     "required": ["monitor:tracked-list", "monitor:hugr-equality", "monitor:index-error", "feature:mixed-args",
                  "feature:untrack", "feature:metadata", "feature:set_tracked_outputs",
                  "feature:set_indexed_outputs", "feature:extend", "feature:rebinding-to-other-port",
-                 "feature:command-object-reused"],
+                 "feature:command-object-reused", "feature:node-handle-as-wire"],
     "reach": ["hugr.build.tracked_dfg:TrackedDfg.add", "hugr.build.tracked_dfg:TrackedDfg.tracked_wire",
               "hugr.build.tracked_dfg:TrackedDfg.untrack_wire", "hugr.build.tracked_dfg:TrackedDfg.set_tracked_outputs"],
     "assumptions": ["non-negative indices only (negative indexing into the tracked list is not part of the statement)",
@@ -163,6 +163,19 @@ def run_script(ctx, sc, stratum="script"):
     def key(ref):
         return tuple(ref)
 
+    NODES = {}
+    uses = [0]
+
+    def tw(ref):
+        """The wire handed to the TrackedDfg: every third use of an op's output 0 is the Node handle itself
+        (a node is a Wire denoting its first output)."""
+        k_ = key(ref)
+        uses[0] += 1
+        if k_ in NODES and uses[0] % 3 == 0:
+            ctx.feat("feature:node-handle-as-wire")
+            return NODES[k_]
+        return W[k_][0]
+
     def check_tracked(step):
         ctx.count("monitor:tracked-list")
         got = list(td.tracked)
@@ -177,7 +190,7 @@ def run_script(ctx, sc, stratum="script"):
         args = cmd["args"]
         untracked = [a for a in args if isinstance(a, int) and not (a < len(model) and model[a] is not None)]
         op_t, op_p = mk_op(cmd), mk_op(cmd)
-        targs = [a if isinstance(a, int) else W[key(a)][0] for a in args]
+        targs = [a if isinstance(a, int) else tw(a) for a in args]
         ctx.count("monitor:index-error")
         com = again if again is not None else op_t(*targs)
         before = list(com.incoming)
@@ -218,6 +231,8 @@ def run_script(ctx, sc, stratum="script"):
         nout = len(OPS[cmd["op"]][1]) if cmd["op"] != "Noop" else 1
         for j in range(max(nout, len(args))):
             W[("out", k, j)] = (n.out(j), pn.out(j))
+        if nout >= 1:
+            NODES[("out", k, 0)] = n
         for pos, a in enumerate(args):
             if isinstance(a, int):
                 model[a] = ("out", k, pos)
@@ -228,12 +243,12 @@ def run_script(ctx, sc, stratum="script"):
     for si, st in enumerate(sc["steps"]):
         k = st[0]
         if k == "track_wire":
-            i = td.track_wire(W[key(st[1])][0])
+            i = td.track_wire(tw(st[1]))
             if i != len(model):
                 bad("track_wire-index", si, len(model), i)
             model.append(key(st[1]))
         elif k == "track_wires":
-            idx = td.track_wires([W[key(w)][0] for w in st[1]])
+            idx = td.track_wires([tw(w) for w in st[1]])
             if idx != list(range(len(model), len(model) + len(st[1]))):
                 bad("track_wires-indices", si, list(range(len(model), len(model) + len(st[1]))), idx)
             model.extend(key(w) for w in st[1])
@@ -280,7 +295,7 @@ def run_script(ctx, sc, stratum="script"):
             if len(cmds) >= 2 and independent and all_tracked:
                 # ONE extend(...) call for the whole group: later commands see the rebinding done by earlier ones
                 ctx.feat("feature:extend-many")
-                coms = [mk_op(c)(*[a if isinstance(a, int) else W[key(a)][0] for a in c["args"]]) for c in cmds]
+                coms = [mk_op(c)(*[a if isinstance(a, int) else tw(a) for a in c["args"]]) for c in cmds]
                 ns = td.extend(*coms)
                 if len(ns) != len(cmds):
                     bad("extend-result-length", si, len(cmds), len(ns))
@@ -295,6 +310,8 @@ def run_script(ctx, sc, stratum="script"):
                     nout = len(OPS[c["op"]][1]) if c["op"] != "Noop" else 1
                     for j in range(max(nout, len(args))):
                         W[("out", kk, j)] = (n.out(j), pn.out(j))
+                    if nout >= 1:
+                        NODES[("out", kk, 0)] = n
                     for pos, a in enumerate(args):
                         if isinstance(a, int):
                             model[a] = ("out", kk, pos)
@@ -311,7 +328,7 @@ def run_script(ctx, sc, stratum="script"):
             outs = st[1]
             untracked = [a for a in outs if isinstance(a, int) and not (a < len(model) and model[a] is not None)]
             try:
-                td.set_indexed_outputs(*[a if isinstance(a, int) else W[key(a)][0] for a in outs])
+                td.set_indexed_outputs(*[a if isinstance(a, int) else tw(a) for a in outs])
                 got = "ok"
             except IndexError:
                 got = "IndexError"
